@@ -667,7 +667,12 @@ class Unit:
                 self.keep_derive = arg.split()
             elif cmd == '@item':
                 mm = re.match(r'(.*?)((?:\s+(?:fields\([^)]*\)|no-derive))*)$', arg)
-                self.emit_item(mm.group(1).strip(), mm.group(2))
+                ispec = mm.group(1).strip()
+                if ispec.startswith('::'):
+                    if not cur_impl:
+                        raise GenError('@item %s outside @impl' % ispec)
+                    ispec = cur_impl + ' ' + ispec
+                self.emit_item(ispec, mm.group(2))
             elif cmd == '@impl':
                 cur_impl = arg
                 self.emit_impl_open(arg)
